@@ -169,7 +169,7 @@ fn run_one(env: &Env, idx: u64) -> Value {
             rec["stats"] = json!({
                 "probe_hits": st.probe_hits, "probe_yields": st.probe_yields, "lazy_forces": st.lazy_forces, "once_calls": st.once_calls,
                 "tables_first_used": st.first_use_order.len(), "first_use_threads": threads_first.len(), "contended": st.contended_first_use,
-                "short_reads": st.short_reads, "eintr_reads": st.eintr_reads, "reads": st.reads,
+                "short_reads": st.short_reads, "eintr_reads": st.eintr_reads, "reads": st.reads, "clock_jumps": st.clock_jumps, "clock_reads": st.clock_reads,
                 "state_sig": simcore::mix(st.interleaving_sig, ex.schedule.context_switches() as u64), "first_use_sig": fo.0,
             });
         }
@@ -420,7 +420,8 @@ fn batch(mode: &'static str, tier: &str) -> i32 {
     }
     agg.probes.declare(oh_verif_rt::PROBE_SITES);
     agg.probes.declare(&["executions_with_contended_first_use", "executions_with_first_use_on_2plus_threads", "probe_yields_taken", "lazy_forces", "once_calls", "tables_first_used"]);
-    agg.faults.declare(&["contended_first_use", "decoder_short_read", "decoder_interrupted_read", "evaluation_unwound_and_caught"]);
+    agg.faults.declare(&["contended_first_use", "decoder_short_read", "decoder_interrupted_read", "evaluation_unwound_and_caught", "simulated_clock_jump"]);
+    agg.probes.declare(&["library_read_the_clock"]);
     let wall = t0.elapsed().as_secs_f64();
     let pools_info = pools_info.into_inner().unwrap().unwrap_or(Value::Null);
     let part = json!({
@@ -495,6 +496,8 @@ fn fold(rec: &Value, agg: &mut Agg, first_use: &Mutex<std::collections::BTreeSet
         agg.faults.add("decoder_interrupted_read", g("eintr_reads"));
         agg.faults.add("evaluation_unwound_and_caught", rec["unwound"].as_u64().unwrap_or(0));
         agg.sim.add("decoder_read_calls", g("reads"));
+        agg.faults.add("simulated_clock_jump", g("clock_jumps"));
+        agg.probes.add("library_read_the_clock", g("clock_reads"));
         agg.states.insert(g("state_sig"));
         first_use.lock().unwrap().insert(g("first_use_sig"));
     }
